@@ -211,9 +211,6 @@ Fixpoint replay (cs : list closure) (s : state) : state * bool :=
 
 (* ---------------------------------------------------------------- code sites that mutate without (correct) undo: "taints" *)
 Inductive taint :=
-| TSetBits       (* Entity.set: status / _wbits_ / objects_to_save changed, its undo_func is never registered *)
-| TSetIdx        (* Entity.set: update_simple_index / update_composite_index results are only in the unregistered undo_func *)
-| TSetForward    (* Entity.set replays undo_funcs un-reversed (more than one closure to replay) *)
 | TSetReverse    (* Set.__set__ called with undo_funcs (from _delete_, Entity.set, __init__): setdata / modified_collections changed after the try, no undo *)
 | TRemFlag       (* Set.reverse_remove: undo_func reads the loop variable in_added instead of the per-object flag *)
 | TDelNested     (* _delete_: its closure is appended before, and replayed after, closures of nested calls that touch objects_to_save *)
